@@ -140,7 +140,7 @@ func implRouting(g *Grid, poly [][]Pt, level uint) (*Routing, error) {
 	if err != nil {
 		return nil, err
 	}
-	fp, _ := polyToFloat(poly)
+	fp, _ := g.toFloatPoly(poly)
 	if err := ix.InsertPolygon(fp); err != nil {
 		return nil, err
 	}
